@@ -337,6 +337,23 @@ func rtOne(o *hout.Out, c *tcase, prop string, w []byte, dump, blankDump string)
 		if r3 := safeUnmarshal(b3, w, false); r3 != "ok" || wire.Msg(b3.Items()) != wire.Msg(b.Items()) {
 			o.Fail(prop, "non-strict-differs", r3, op)
 		}
+		// C17: setters on a *parsed* message — the new values, and only they, must reach the wire
+		if !trailerLost {
+			if nmut := gen.MutateMsg(o.R, b.Items(), c.shadow, &gen.Opts{Hints: c.tags}, 0.3); nmut > 0 {
+				d2 := c.shadow.Dump()
+				w4, res4 := safeToBytes(b)
+				exp4 := res4
+				if res4 == "ok" {
+					exp4 = "ok " + wire.X(w4)
+				}
+				o.Emit("corr", "C17", "enc "+d2, exp4)
+				if res4 == "ok" {
+					o.Emit("spec", "C17", "c17 "+d2+" "+wire.X(w4), "pass")
+					o.Nontrivial("C17", "set-after-parse "+string(w4))
+				}
+				o.Count("C17.set-after-parse")
+			}
+		}
 	}
 }
 
@@ -723,6 +740,7 @@ func main() {
 	}
 	r := rand.New(rand.NewSource(*seed))
 	o := hout.New(*out)
+	o.R = r
 	defer o.Close()
 	switch *mode {
 	case "enc":
